@@ -155,7 +155,7 @@ func GenConfig(prop, tier string, seed uint64) Config {
 		}
 	}
 	if prop == "C53" && c.KF != "" && r.Chance(0.6) {
-		c.KF = []string{"ro-flushwal-omits-out-of-order-head-data", "series-ref-reused-after-snapshot-restart"}[r.Intn(2)]
+		c.KF = []string{"ro-flushwal-omits-out-of-order-head-data", "series-ref-reused-after-snapshot-restart", "ro-query-ending-below-newest-block-skips-ooo-head-data"}[r.Intn(3)]
 	}
 	if prop == "C23" && c.KF != "" && r.Chance(0.6) {
 		c.KF = []string{"series-ref-reused-after-snapshot-restart", "snapshot-kept-when-head-chunk-file-lost-chunks-at-a-chunk-boundary"}[r.Intn(2)]
